@@ -949,8 +949,15 @@ impl<'a, 'b> TryInto<AnnotationBuilder<'a>> for AnnotationCsv<'a> {
                                 let begin: Cursor = self.begin.as_str().try_into()?;
                                 let end: Cursor = self.end.as_str().try_into()?;
                                 Some(Offset::new(begin, end))
-                            } else {
+                            } else if self.begin.as_str().is_empty() && self.end.as_str().is_empty()
+                            {
                                 None
+                            } else {
+                                //(half an offset is no offset, and not the absence of one either)
+                                return Err(StamError::CsvError(
+                                    "An offset needs both a begin and an end".to_string(),
+                                    "AnnotationSelector",
+                                ));
                             };
                         SelectorBuilder::AnnotationSelector(
                             BuildItem::Id(annotation.to_string()),
@@ -1082,6 +1089,13 @@ impl<'a, 'b> TryInto<AnnotationBuilder<'a>> for AnnotationCsv<'a> {
                                 let begin: Cursor = beginoffsets.get(i).unwrap().deref().try_into()?;
                                 let end: Cursor = endoffsets.get(i).unwrap().deref().try_into()?;
                                 Some(Offset::new(begin, end))
+                            } else if endoffsets.get(i).map(|x| !x.is_empty()).unwrap_or(false) {
+                                return Err(StamError::CsvError(
+                                format!(
+                                    "No begin offset specified for subselector #{}", i
+                                ),
+                                "AnnotationSelector",
+                                ));
                             } else {
                                 None
                             };
